@@ -283,3 +283,72 @@ def run(eng: Engine, ck: Check):
                                                        'UserManager:AddUser.Response'})
     ck.floor('R-C05-RANK.replica', n_h, 3)
 
+
+    wake_rule(eng, ck)
+
+
+def wake_rule(eng: Engine, ck: Check):
+    """R-C05-WAKE: the management task sleeps on a queue and has no periodic tick; it runs when somebody requests a cycle.  A state change
+    that frees an upload slot (a transfer leaves INITIALIZING / UPLOADING) or adds a candidate (a transfer becomes QUEUED) must request
+    one, otherwise a queued upload waits for an unrelated event although a slot is free.  The guards of the request in the state-change
+    listener are evaluated over every edge of the documented state graph (tables/state_graph.json)."""
+    import json
+    import os
+    lst = eng.func(TM, 'TransferManager.on_transfer_state_changed')
+    ck.visited(lst)
+    reqs = calls_on(lst.node, 'request_management_cycle')
+    ps = [p_ for p_ in lst.params if p_ != 'self']
+    if len(ps) < 3:
+        raise AnalysisError('R-C05-WAKE: on_transfer_state_changed(transfer, old, new) signature not recognised')
+    tp, oldp, newp = ps[:3]
+    edges = json.load(open(os.path.join(os.path.dirname(os.path.dirname(__file__)), 'tables', 'state_graph.json')))['edges']
+    PROCESSING = ('INITIALIZING', 'UPLOADING', 'DOWNLOADING')      # is_processing(): the states that hold a slot
+    needed = sorted({(e['from'], e['to']) for e in edges if (e['from'] in PROCESSING and e['to'] not in PROCESSING) or e['to'] == 'QUEUED'})
+    ck.floor('R-C05-WAKE.edges', len(needed), 10)
+    UNK = object()
+
+    def ev(e: ast.AST, env: dict):
+        if isinstance(e, ast.UnaryOp) and isinstance(e.op, ast.Not):
+            v = ev(e.operand, env)
+            return UNK if v is UNK else not v
+        if isinstance(e, ast.BoolOp):
+            vs = [ev(x, env) for x in e.values]
+            if isinstance(e.op, ast.And):
+                return False if any(v is False for v in vs) else True if all(v is True for v in vs) else UNK
+            return True if any(v is True for v in vs) else False if all(v is False for v in vs) else UNK
+        if isinstance(e, ast.Compare) and len(e.ops) == 1:
+            l, r, op = e.left, e.comparators[0], e.ops[0]
+            if isinstance(r, ast.Name) and r.id in env and not (isinstance(l, ast.Name) and l.id in env):
+                l, r = r, l
+            if isinstance(l, ast.Name) and l.id in env:
+                if isinstance(r, ast.Name) and r.id in env and isinstance(op, (ast.Eq, ast.NotEq, ast.Is, ast.IsNot)):
+                    return (env[l.id] == env[r.id]) == isinstance(op, (ast.Eq, ast.Is))
+                mem = enum_members_in(r)
+                if mem and isinstance(op, (ast.Eq, ast.Is, ast.In)):
+                    return env[l.id] in mem
+                if mem and isinstance(op, (ast.NotEq, ast.IsNot, ast.NotIn)):
+                    return env[l.id] not in mem
+            return UNK
+        if isinstance(e, ast.Call) and isinstance(e.func, ast.Attribute) and unparse(e.func.value) == tp and not e.args:
+            return {'is_upload': True, 'is_download': False}.get(e.func.attr, UNK)
+        if isinstance(e, ast.Constant):
+            return bool(e.value)
+        return UNK
+    missing, undecided = [], []
+    for frm, to in needed:
+        env = {oldp: frm, newp: to}
+        got = False
+        for x in reqs:
+            vs = [(ev(expand_aliases(lst, g), env), pol) for g, pol, _ in eng.guards_at(lst, x)]
+            if any(v is UNK for v, _ in vs):
+                undecided.append(unparse(x)[:40])
+                continue
+            if all(v == pol for v, pol in vs):
+                got = True
+        if not got:
+            missing.append(f'{frm}->{to}')
+    if undecided and missing:
+        raise AnalysisError(f'R-C05-WAKE: a guard of request_management_cycle in on_transfer_state_changed is outside the (old, new) fragment: {sorted(set(undecided))}')
+    ck.ob('R-C05-WAKE', lst, lst.node, f'every state change of an upload that frees a slot or adds a candidate requests a management cycle ({len(needed)} edges of the state graph)',
+          not missing, f'no cycle is requested for {missing}: the slot is free (is_processing() false) but the management task keeps sleeping on its queue; the queued '
+          'uploads of other users wait for an unrelated event', construct='state change wakes the scheduler')
